@@ -123,6 +123,13 @@ func (t *treeSimple) mkdir(r io.Reader, cfg *config) error {
 	if err := t.grower.grow(roots); err != nil {
 		return err
 	}
+	if cfg.dryrun {
+		// dry run: nothing is made. an existing root is still reported, then the tree is printed.
+		if err := t.mkdirer.checkRoots(roots); err != nil {
+			return err
+		}
+		return t.spreader.spread(color.Output, roots)
+	}
 	return t.mkdirer.mkdir(roots)
 }
 
@@ -225,6 +232,7 @@ type spreaderSimple interface {
 // interfaceを使う必要はないが、growerSimple/spreaderSimpleと合わせたいため
 type mkdirerSimple interface {
 	mkdir([]*Node) error
+	checkRoots([]*Node) error
 }
 
 // 関心事はディレクトリの検証
